@@ -41,6 +41,8 @@ module Nat :
 
 val hd : 'a1 -> 'a1 list -> 'a1
 
+val nth : nat -> 'a1 list -> 'a1 -> 'a1
+
 val rev : 'a1 list -> 'a1 list
 
 val list_eq_dec : ('a1 -> 'a1 -> bool) -> 'a1 list -> 'a1 list -> bool
@@ -130,6 +132,10 @@ module Coq_Pos :
 
   val gcd : positive -> positive -> positive
 
+  val iter_op : ('a1 -> 'a1 -> 'a1) -> positive -> 'a1 -> 'a1
+
+  val to_nat : positive -> nat
+
   val of_succ_nat : nat -> positive
 
   val eq_dec : positive -> positive -> bool
@@ -164,6 +170,8 @@ module N :
   val div : n -> n -> n
 
   val modulo : n -> n -> n
+
+  val to_nat : n -> nat
 
   val of_nat : nat -> n
 
@@ -358,3 +366,91 @@ val num_display : num -> n list
 val split_slash : n list -> n list -> n list list
 
 val num_from_string : n list -> num option
+
+val index_from : n -> n list -> n -> n option
+
+val index_of : n -> n list -> n option
+
+val sINGLE : n list
+
+val sTART : n list
+
+val hEARTS : n list
+
+val cH_Q : n
+
+val cH_BANG : n
+
+val cH_US : n
+
+val cH_LB : n
+
+val cH_RB : n
+
+val cH_NL : n
+
+val is_dot : n -> bool
+
+val dot_val : n -> n
+
+val is_hangul : n -> bool
+
+val is_ws : n -> bool
+
+val end_class : n -> n option
+
+val end_kind : n -> n option
+
+val class_of_kind : n -> n
+
+val area_char : n -> n
+
+type area =
+| Nil
+| Val of n * area * area
+
+val leafA : n -> area
+
+type slot = n option
+
+val slotA : slot -> area
+
+type bangz = { closed : slot list; curslot : slot }
+
+val bang_tree : slot list -> slot -> area
+
+val bangA : bangz -> area
+
+val bang0 : bangz
+
+val qu_tree : area list -> area -> area
+
+type ucode = { ty : n; hc : n; dc : n; loc : (n * n); ar : area; raw : n list }
+
+type pst = { res : ucode list; type_ : n; hangul : n; dots : n;
+             cloc : (n * n); st : n; bz : bangz; qz : area list; line : 
+             n; line_start : n; rawc : n list }
+
+val pst0 : pst
+
+val finish : pst -> area
+
+val flush : pst -> ucode list
+
+val max_pos : n list -> n -> ((n * n) * n) -> (n * n) * n
+
+val mp_get : ((n * n) * n) -> n -> n
+
+val step : bool -> ((n * n) * n) -> pst -> n -> n -> pst
+
+val run : bool -> ((n * n) * n) -> n list -> n -> pst -> pst
+
+val parse_gen : bool -> n list -> ucode list
+
+val parse : n list -> ucode list
+
+val parse_pre_fix : n list -> ucode list
+
+val area_debug : area -> n list
+
+val area_display : area -> n list
